@@ -3,8 +3,10 @@ package main
 import (
 	"fmt"
 	"go/types"
+	"regexp"
 	"sort"
 	"strings"
+	"sync"
 
 	"golang.org/x/tools/go/ssa"
 )
@@ -147,6 +149,7 @@ func (x *X) havocCall(f *ssa.Function, args []Val, full string) Val {
 
 // havocHeap forgets everything about the heap (sound treatment of unknown code).
 func (x *X) havocHeap(why string) {
+	x.logHavoc(".*")
 	for k := range x.st.heap {
 		if k == "ALLOC" {
 			old := x.st.heap[k]
@@ -368,8 +371,8 @@ func (x *X) builtin(fr *frame, in ssa.Instruction, c *ssa.CallCommon, b *ssa.Bui
 		n := x.mapLen(mt, m.Ref)
 		l := x.mapLoc(mt, m.Ref, args[1])
 		// deleting from a nil map is a no-op; has is false there anyway
-		x.writeLeaf(l, "#has", SBool, "false")
-		x.writeLeaf(loc{key: "M:" + typeKey(mt), idx: []string{m.Ref}}, "#len", SInt, fmt.Sprintf("(ite %s (- %s 1) %s)", has, n, n))
+		x.writeLeaf(l, "#mhas", SBool, "false")
+		x.writeLeaf(loc{key: "M:" + typeKey(mt), idx: []string{m.Ref}}, "#mlen", SInt, fmt.Sprintf("(ite %s (- %s 1) %s)", has, n, n))
 		return Tup{}
 	case "print", "println":
 		return Tup{}
@@ -508,4 +511,23 @@ func (x *X) globalMapLookup(fr *frame, in *ssa.Lookup, mt *types.Map, key Val) V
 		return Tup{E: []Val{val, S{x.define("has", SBool, has), SBool}}}
 	}
 	return val
+}
+
+var havocSeq int
+var havocMu sync.Mutex
+
+func (x *X) logHavoc(pattern string) {
+	havocMu.Lock()
+	havocSeq++
+	id := havocSeq
+	havocMu.Unlock()
+	x.st.log = append(append([]havocRec(nil), x.st.log...), havocRec{regexp.MustCompile(pattern), id})
+}
+
+// globToRegexp turns a modifies entry ("E:resolve.Version", "H:semver.*") into a pattern
+// matching the heap keys it covers (the entry itself, its #parts and its .fields).
+func globToRegexp(m string) string {
+	q := regexp.QuoteMeta(m)
+	q = strings.ReplaceAll(q, `\*`, `.*`)
+	return "^" + q + "($|[#.].*)"
 }
